@@ -170,32 +170,65 @@ Definition doc_names_nobody (known : list string) (j : json) : bool :=
 Definition names_nobody (known : list string) (b : body) : bool :=
   match b with BadSyntax => false | Doc j => doc_names_nobody known j end.
 
-(* the fixture of the harness: one client session (public id written "@SID@" in
-   the cases files, the harness substitutes the real id in the request text)
-   of user "c11-user" with Nextcloud room session "c11-rs"; it is in the addressed
-   room (exists = true, fresh room with the properties the test backend hands
-   out) or in some other room (exists = false). *)
+(* the fixture of the harness: three client sessions (public ids written "@SID@",
+   "@SID2@", "@SID3@" in the cases files, the harness substitutes the real ids in
+   the request text).
+   - the observer, user "c11-user", Nextcloud room session "c11-rs": in the
+     addressed room (exists = true, fresh room with the properties the test backend
+     hands out) or in some other room (exists = false);
+   - a session ELSEWHERE, user "c11-user2", room session "c11-rs2": always in a room
+     that is neither the addressed one nor the observer's.  Its room session id
+     resolves, so requests for the addressed room can name it;
+   - a session in NO room, user "c11-user3": known to the hub, without a room
+     session id (only its public id can be written into a request). *)
 Definition fixture_sid : string := "@SID@".
 Definition fixture_user : string := "c11-user".
 Definition fixture_rs : string := "c11-rs".
+Definition fixture_sid2 : string := "@SID2@".
+Definition fixture_user2 : string := "c11-user2".
+Definition fixture_rs2 : string := "c11-rs2".
+Definition fixture_sid3 : string := "@SID3@".
+Definition fixture_user3 : string := "c11-user3".
 Definition fixture_props : json := JObj [("prop1", JStr "value1")].
 
-(* the room session ids that exist during a run of the harness: the fixture's one
-   (requests never create any; a deleted room takes its sessions' ids with it) *)
-Definition run_known : list string := [fixture_rs].
+(* the room session ids that exist during a run of the harness: those of the two
+   fixture sessions that are in a room (requests never create any; a deleted room
+   takes its sessions' ids with it) *)
+Definition run_known : list string := [fixture_rs; fixture_rs2].
 
 (* ---- observations of the implementation ---------------------------------------------------- *)
 (* what the harness saw for one request: HTTP status (0 = the connection was closed
-   without a reply), did the process die, did the server answer the probes sent
-   afterwards, the events the client in the room (or next to it) received *)
-Record iobs := { i_status : Z; i_died : bool; i_responsive : bool; i_closed : bool; i_events : list evkind }.
+   without a reply), did the process die, is the server responsive afterwards, the
+   events the observer in the room (or next to it) received, the events the session
+   elsewhere received.
+   [i_responsive] is a direct observation, made after every request once it was
+   answered: (1) the probes that delimit the observer's events came back (an
+   "invite" through the user subject; a "participants" request through the Room
+   object and the hub's main loop as long as the observer is in a room - whether it
+   still is, is read from the hub, not guessed from a missing answer); (2) a
+   further room request for the room of the session elsewhere is processed by the
+   hub's main loop and its event arrives there; (3) a session can join the addressed
+   room and leave it again (needs the lock of that Room object); (4) a new client
+   can connect, say hello and good-bye (writers of the hub's tables); (5) the hub's
+   and the rooms' tables can be read - each within a bound.  false = "blocked": the
+   process lives, but somebody holds a lock for ever or the main loop stands. *)
+Record iobs := { i_status : Z; i_died : bool; i_responsive : bool; i_closed : bool; i_events : list evkind;
+                 i_events2 : list evkind }.
+Definition mkobs2 (status : Z) (died responsive closed : bool) (evs evs2 : list evkind) : iobs :=
+  {| i_status := status; i_died := died; i_responsive := responsive; i_closed := closed; i_events := evs;
+     i_events2 := evs2 |}.
 Definition mkobs (status : Z) (died responsive closed : bool) (evs : list evkind) : iobs :=
-  {| i_status := status; i_died := died; i_responsive := responsive; i_closed := closed; i_events := evs |}.
+  mkobs2 status died responsive closed evs [].
 
 Definition trace := list (body * iobs).
 
+(* no client received anything: neither the observer nor the session elsewhere *)
+Definition quiet (o : iobs) : bool :=
+  match i_events o, i_events2 o with [], [] => true | _, _ => false end.
+
 (* the property, per request: answered with 2xx or 4xx, server running and
-   responsive afterwards, and a malformed request reached no client - neither
+   responsive afterwards (whatever the request was: [i_responsive] has no
+   premise), and a malformed request reached no client - neither
    one the server refuses (malformed) nor an "incall all" request that names no
    state (names_no_state) nor an "incall" / "participants" request whose lists name
    nobody (names_nobody) *)
@@ -203,9 +236,9 @@ Definition P_one (b : body) (o : iobs) : bool :=
   let c := i_status o in
   (((200 <=? c) && (c <? 300)) || ((400 <=? c) && (c <? 500)))%Z &&
   negb (i_died o) && i_responsive o &&
-  (negb (malformed b) || match i_events o with [] => true | _ => false end) &&
-  (negb (names_no_state b) || match i_events o with [] => true | _ => false end) &&
-  (negb (names_nobody run_known b) || match i_events o with [] => true | _ => false end).
+  (negb (malformed b) || quiet o) &&
+  (negb (names_no_state b) || quiet o) &&
+  (negb (names_nobody run_known b) || quiet o).
 
 Definition P_C11 (tr : trace) : bool := forallb (fun e => P_one (fst e) (snd e)) tr.
 
@@ -258,9 +291,9 @@ Definition fixture (exists_ numeric : bool) : state := {|
   st_members := if exists_ then [fixture_sid] else [];
   st_incall := [];
   st_props := if exists_ then Some fixture_props else None;
-  st_rs := [(fixture_rs, fixture_sid)];
-  st_known := [fixture_sid];
-  st_users := [(fixture_sid, fixture_user)];
+  st_rs := [(fixture_rs, fixture_sid); (fixture_rs2, fixture_sid2)];
+  st_known := [fixture_sid; fixture_sid2; fixture_sid3];
+  st_users := [(fixture_sid, fixture_user); (fixture_sid2, fixture_user2); (fixture_sid3, fixture_user3)];
   st_numeric := numeric;
   st_dialout := None
 |}.
@@ -276,8 +309,13 @@ Fixpoint first_diff (fixed : bool) (i : N) (st : state) (tr : trace) : option N 
   | [] => None
   | (b, o) :: r =>
       let '(st', m) := step fixed st b in
+      (* the model has no locks and no goroutines: nothing in it can block, so an
+         answered request that did not kill the process leaves the server responsive;
+         the session elsewhere keeps its connection, its events are compared exactly *)
       if Z.eqb (reply_code (o_reply m)) (i_status o) && Bool.eqb (o_exit m) (i_died o) &&
-         (i_died o || events_agree st (events_for st fixture_sid (o_pubs m)) o)
+         (i_died o || i_responsive o) &&
+         (i_died o || events_agree st (events_for st fixture_sid (o_pubs m)) o) &&
+         (i_died o || negb (i_responsive o) || same_events (events_for st fixture_sid2 (o_pubs m)) (i_events2 o))
       then (if i_died o || i_closed o then (match r with [] => None | _ => Some (N.succ i) end)
             else first_diff fixed (N.succ i) st' r)
       else Some i
